@@ -171,6 +171,14 @@ fn toks(text: &str) -> Option<Toks> {
     Some(t)
 }
 
+thread_local! {
+    /// C20's CLI clause uses the same projects but judges only where paths lead (sources[], module specifiers)
+    static PATHS_ONLY: std::cell::Cell<bool> = const { std::cell::Cell::new(false) };
+}
+fn paths_only() -> bool {
+    PATHS_ONLY.with(|c| c.get())
+}
+
 const KEYWORDS: [&str; 13] = ["type", "interface", "union", "enum", "input", "scalar", "directive", "schema", "extend", "query", "mutation", "subscription", "fragment"];
 
 pub struct Ctr {
@@ -231,6 +239,10 @@ fn check_map(rep: &Reporter, case: &Case, case_json: &dyn Fn(J) -> J, map_path: 
         if !src_files.iter().flatten().any(|s| s == e) {
             bad(format!("source_missing:{kind}"), format!("{e} contributes to this file but is not listed in sources"));
         }
+    }
+    if paths_only() {
+        ctr.maps.fetch_add(1, Ordering::Relaxed);
+        return None;
     }
     let dec = match decode_mappings(v["mappings"].as_str().unwrap()) {
         Ok(d) => d,
@@ -378,6 +390,21 @@ fn check_case(rep: &Reporter, case: &Case, c: &Chooser, ctr: &Ctr) {
             check_specifier(rep, case, &case_json, &out, &gen_text, ctr);
         }
     }
+    if paths_only() {
+        for f in &op_files {
+            let stem = f.strip_suffix(".graphql").unwrap();
+            let out = format!("{stem}.{}", MODES[case.mode].1);
+            let (Some(gen_text), Some(map)) = (get(&out), get(&format!("{out}.map"))) else { continue };
+            let mut expected: BTreeSet<String> = schema_files.clone();
+            expected.insert(f.clone());
+            let mut imported: Vec<String> = vec![];
+            collect_imports(case, f, &mut imported);
+            expected.extend(imported);
+            check_map(rep, case, &case_json, &format!("{out}.map"), &map, &gen_text, &expected, &tok_cache, ctr, "operation");
+            check_specifier(rep, case, &case_json, &out, &gen_text, ctr);
+        }
+        return;
+    }
     // coverage: every schema type and field
     let mut want: Vec<(String, Vec<(u32, u32)>, String, &'static str)> = vec![]; // file, acceptable header positions (utf16), name, what
     let schema_text = get(&case.schema_out).unwrap_or_default();
@@ -520,7 +547,17 @@ fn check_specifier(rep: &Reporter, case: &Case, case_json: &dyn Fn(J) -> J, out:
     }
 }
 
+/// C20's CLI clause: the same project shapes, judged only on where `sources[]` entries and schema
+/// module specifiers lead.
+pub fn c20_layer(rep: &Reporter, args: &Args) -> J {
+    layer(rep, args, true)
+}
+
 pub fn c06_layer(rep: &Reporter, args: &Args) -> J {
+    layer(rep, args, false)
+}
+
+fn layer(rep: &Reporter, args: &Args, only_paths: bool) -> J {
     let ctr = Ctr { runs: AtomicU64::new(0), maps: AtomicU64::new(0), segments: AtomicU64::new(0), coverage_items: AtomicU64::new(0), specifiers: AtomicU64::new(0), char_vs_utf16: AtomicU64::new(0) };
     let distinct = DistinctSet::new();
     let sample: Mutex<Option<J>> = Mutex::new(None);
@@ -536,6 +573,7 @@ pub fn c06_layer(rep: &Reporter, args: &Args) -> J {
                 *s = Some(json!({"config": case.yaml, "tags": case.tags}));
             }
         }
+        PATHS_ONLY.with(|p| p.set(only_paths));
         check_case(rep, &case, c, &ctr);
     });
     cli::cleanup("c06");
@@ -550,4 +588,25 @@ pub fn c06_layer(rep: &Reporter, args: &Args) -> J {
         "segments_with_character_instead_of_utf16_column": ctr.char_vs_utf16.load(Ordering::Relaxed),
         "sample": sample.lock().unwrap().clone().unwrap_or(J::Null),
     })
+}
+
+/// Replay of a recorded end-to-end case: the project is regenerated from its choice sequence and
+/// judged again; the keys of what fails are printed.
+pub fn replay(case: &J, only_paths: bool) -> i32 {
+    let picks: Vec<u16> = case["picks"].as_array().map(|a| a.iter().map(|x| x.as_u64().unwrap_or(0) as u16).collect()).unwrap_or_default();
+    let dev = crate::explore::Dev::from_picks(&picks);
+    let mut c = Chooser::new(&dev);
+    let cs = gen_case(&mut c);
+    println!("--- config ---\n{}\n--- tags: {:?}", cs.yaml, cs.tags);
+    let rep = Reporter::new("replay-e2e", "quick");
+    let ctr = Ctr { runs: AtomicU64::new(0), maps: AtomicU64::new(0), segments: AtomicU64::new(0), coverage_items: AtomicU64::new(0), specifiers: AtomicU64::new(0), char_vs_utf16: AtomicU64::new(0) };
+    PATHS_ONLY.with(|p| p.set(only_paths));
+    check_case(&rep, &cs, &c, &ctr);
+    cli::cleanup("c06");
+    let keys = rep.violation_keys();
+    println!("maps decoded: {}, segments: {}", ctr.maps.load(Ordering::Relaxed), ctr.segments.load(Ordering::Relaxed));
+    for k in &keys {
+        println!("FAILS {k}");
+    }
+    if keys.is_empty() { 0 } else { 1 }
 }
